@@ -234,6 +234,32 @@ func overflowCases(maxN int) (cases []fcase) {
 			}
 		}
 	}
+	// '$' placement in string literals: every string of length <= 5 over { $ { } a \ } in "..." and `...`
+	alpha := []string{"$", "{", "}", "a", "\\"}
+	var strs []string
+	strs = append(strs, "")
+	for lo, l := 0, 1; l <= 5; l++ {
+		hi := len(strs)
+		for _, s := range strs[lo:hi] {
+			for _, c := range alpha {
+				strs = append(strs, s+c)
+			}
+		}
+		lo = hi
+	}
+	for i, s := range strs {
+		for _, q := range []string{"\"", "`"} {
+			lit := q + s + q
+			qn := "dq"
+			if q == "`" {
+				qn = "raw"
+			}
+			id := fmt.Sprintf("dollar-%s-%d", qn, i)
+			k++
+			add(id, len(s), "expr", "expr", 0, lit, k)
+			add(id, len(s), "define", "file", 0, "x := "+lit+"\n", k+1)
+		}
+	}
 	// every keyword in every statement-start position
 	forms := []struct{ id, pre, post string }{{"bare", "", ""}, {"ident", "", " x"}, {"paren", "", " ("}, {"brace", "", " {"}, {"after-ident", "x ", ""},
 		{"after-assign", "x = ", ""}, {"twice", "", " "}, {"after-dot", "x.", ""}, {"call", "", "()"}, {"colon", "", ":"}}
